@@ -50,4 +50,12 @@ CHECKS = {
             
         ],
     ),
+    "C18": dict(
+        pkg="./c18", level="exploration",
+        runs=[
+            dict(name="codec", run="^(TestPropRefs|TestPropDataValue|TestPropStoreValue|TestPropValueEqual)$", checks=(20000, 200000), shards=(4, 16)),
+            dict(name="responses", run="^TestPropResponses$", checks=(3000, 30000), shards=(2, 8)),
+        ],
+        fuzz=[dict(target="FuzzStoreValue", secs=(0, 45)), dict(target="FuzzUnmarshalDataValue", secs=(0, 45)), dict(target="FuzzParseResponse", secs=(0, 30))],
+    ),
 }
